@@ -581,6 +581,8 @@ func (e *eng) Exec(op []string) string {
 			return "fail:child"
 		}
 		return strings.TrimSpace(string(out))
+	case "convstress":
+		return convStress(common.Atoi(op[1]), common.Atoi(op[2]))
 	case "loopstress":
 		// a stuck client loop (and the goroutines of an HTTP server) must not poison the harness: child process
 		cmd := exec.Command(os.Args[0], append([]string{"child-loopstress"}, op[1:]...)...)
@@ -818,6 +820,15 @@ func gen(t *common.Trace, e common.Engine, r *common.Rng, thorough bool) {
 		for _, p := range []string{"16 2 200000", "4 8 200000", "2 16 400000", "8 4 200000", "8 4 200000"} {
 			common.Do(t, e, "loopstress "+p)
 		}
+	}
+	// concurrent joins against a leave: every member's folded list equals the membership when nothing is in flight (C14)
+	t.Case("convstress")
+	e.Reset()
+	if thorough {
+		common.Do(t, e, "convstress 60 20000")
+		common.Do(t, e, "convstress 8 20000")
+	} else {
+		common.Do(t, e, "convstress 60 1500")
 	}
 	// overlapping joins with a slow password check against max-clients (C10: capacity under every interleaving)
 	t.Case("racejoin")
